@@ -45,6 +45,11 @@ def documented():
     return (DiagonalAccessError, NoKernelFoundError)
 
 
+def count_definitions(text, kind):
+    """How often the C text defines the kernel `kind` (an unindented '<type> kind(' line)."""
+    return len(re.findall(rf"^[A-Za-z_][\w \t\*]*?[ \t\*]{kind}\(", text, flags=re.M))
+
+
 def request(problem, kinds, language, case, findings, stats):
     """One generate_code request. Returns the text or None."""
     from returns.result import Failure, Success
@@ -121,7 +126,8 @@ def syntax_check_c(texts, findings, stats, tag):
     line_owner = []
     nlines = c_header().count("\n")
     for k, (text, case) in enumerate(texts):
-        body = re.sub(r"^(int32_t )(evaluate|assemble|compute)\(", rf"\g<1>\g<2>_{k}(", text, flags=re.M)
+        # rename the kernel definitions (unindented "<type> <name>(" lines), whatever the return type is spelt like
+        body = re.sub(r"^([A-Za-z_][\w \t\*]*?[ \t\*])(evaluate|assemble|compute)\(", rf"\g<1>\g<2>_{k}(", text, flags=re.M)
         parts.append(body + "\n")
         n = body.count("\n") + 1
         line_owner.append((nlines + 1, nlines + n, k))
@@ -187,8 +193,7 @@ def work_space(unit):
         text = request(problem, all3, Language.c, {**case, "kinds": list(KIND_NAMES), "language": "c"}, findings, stats)
         if text is not None:
             ctexts.append((text, {**case, "language": "c"}))
-            if not (text.count("int32_t assemble(") == 1 and text.count("int32_t compute(") == 1
-                    and text.count("int32_t evaluate(") == 1):
+            if not all(count_definitions(text, k) == 1 for k in KIND_NAMES):
                 findings.append(_f("missing-function", "C text does not define each requested kernel once", case))
         ll = request(problem, all3, Language.llvm, {**case, "kinds": list(KIND_NAMES), "language": "llvm"}, findings, stats)
         if ll is not None:
@@ -202,8 +207,8 @@ def work_space(unit):
                 findings.append(_f("kind-disagreement", f"kinds {kn} and the full set disagree on code vs refusal", case))
             elif t2 is not None:
                 for k in set(kn):
-                    if t2.count(f"int32_t {k}(") != kn.count(k):
-                        findings.append(_f("missing-function", f"kinds {kn}: {k} defined {t2.count(f'int32_t {k}(')} times", case))
+                    if count_definitions(t2, k) != kn.count(k):
+                        findings.append(_f("missing-function", f"kinds {kn}: {k} defined {count_definitions(t2, k)} times", case))
         if text is not None and len(samples) < 1:
             samples.append({**case, "c_lines": text.count("\n") + 1})
         if too_many(findings):
